@@ -337,7 +337,14 @@ Definition class_of (m : method_t) : option cls :=
     match intended_of (m_contract m) (m_name m) with
     | Some (I c) => Some c
     | Some (Defect _ c) => Some c
-    | None => None
+    | None =>
+        (* a method the table does not know (it appeared after the table was written): judged by what its
+           syntax shows, an unguarded one as read-only - so that a new unguarded entry point that changes
+           state yields a concrete failing call; [surface_classified] fails in any case *)
+        match derived m with
+        | Some NoGuard => Some Query
+        | d => d
+        end
     end
   else derived m.
 
